@@ -45,7 +45,7 @@ PROPS = {}
 
 PROPS["C15"] = {
     "level": "proof",
-    "budget": {"quick": [("c15", 3000), ("c15s", 8), ("c15big", 1300000)], "thorough": [("c15", 200000), ("c15s", 600), ("c15big", 6000000)], "search": [("c15", 400000), ("c15s", 1200), ("c15big", 6000000)]},
+    "budget": {"quick": [("c15", 8000), ("c15s", 8), ("c15big", 1300000)], "thorough": [("c15", 200000), ("c15s", 600), ("c15big", 6000000)], "search": [("c15", 400000), ("c15s", 1200), ("c15big", 6000000)]},
     "rule": "random store/retrieve sequences (1-60 ops, 1-8 distinct keys spread over u64, depths 0-5 plus 255, evals incl. i32::MIN/MAX) on the real TranspositionTable; a case is non-trivial when it contains both a store rejected by a deeper record and one that replaced/tied; distinct = distinct op traces; and at the level of the search (c15s): several searches on one Searcher, deeper first and shallower later, on a position and its successors, the depth of the record kept for each watched position observed before and after every search and judged (never shallower, never lost), table digest compared with the model; and a BIG table (c15big: more than a million records under consecutive keys, then shallower / equal / deeper stores and lookups for keys inside the range, at its ends and new keys)",
     "trusted_base": [KERNEL, AXIOMS, TIE, "std::collections::HashMap and Std.HashMap both behave as finite maps under get/insert (modelled, not verified)"],
     "assumptions": ["HashMap::get/insert behave as a finite map", "the model's fidelity outside the generated op sequences rests on reading the 20-line store/retrieve code"],
@@ -55,7 +55,7 @@ PROPS["C15"] = {
 PROPS["C14"] = {
     "level": "proof",
     "prop_modules": ["Flounder.Props.C14", "Flounder.Props.C14Sym", "Flounder.Props.C14Bound"],
-    "budget": {"quick": [("c14", 4000)], "thorough": [("c14", 300000)], "search": [("c14", 600000)]},
+    "budget": {"quick": [("c14", 12000)], "thorough": [("c14", 300000)], "search": [("c14", 600000)]},
     "rule": "valid positions (play-outs from a 27-FEN corpus + constructed positions filtered by Valid) and a malformed stream (overlapping/arbitrary bitboards), evaluated in random order on ONE shared Evaluator with re-evaluations of earlier boards; every valid board is also evaluated side-flipped and mirrored; non-trivial = distinct board with a non-zero score",
     "trusted_base": [KERNEL, AXIOMS, TIE, EXTRACT, "i32 modelled as Int (no-overflow theorem covers every 8-bitboard input); Rust `/` = Int.tdiv"],
     "assumptions": ["BitboardIterator yields the set bits in ascending order (modelled; equivalence with the lsb loop is proved in Lemmas/BitIter when present)", "PieceCountOK (<= 16 men a side, one king each) for the magnitude bound"],
@@ -64,7 +64,7 @@ PROPS["C14"] = {
 PROPS["C11"] = {
     "level": "proof",
     "prop_modules": ["Flounder.Props.C11", "Flounder.Props.C11Xor"],
-    "budget": {"quick": [("c11", 400)], "thorough": [("c11", 40000)], "search": [("c11", 80000)]},
+    "budget": {"quick": [("c11", 1200)], "thorough": [("c11", 40000)], "search": [("c11", 80000)]},
     "rule": "for each REAL key draw (ZobristTable::new(), 837 keys, KeysGood checked) 40 boards (valid + malformed): hash vs model vs XOR-of-features spec; counter variants must hash equal; every single-component edit (side, each right, ep, man removed/recoloured/retyped/moved) must hash different; transposed move orders must hash equal; distinct = distinct boards",
     "trusted_base": [KERNEL, AXIOMS, TIE, "rand::thread_rng is not modelled: theorems quantify over all key tables; KeysGood (837 keys non-zero, pairwise distinct) is checked on every draw the run makes"],
     "assumptions": ["sensitivity to single-component changes needs KeysGood keys; P(not KeysGood) < 1.9e-14 per process under a uniform generator (remark, not a theorem)"],
@@ -87,7 +87,7 @@ PROPS["C01"] = {
     # the search pass also dumps the attack tables exhaustively: when a table constant changed (the kernel facts of C10 no longer
     # check) the (square, occupancy) whose attack set is wrong is the most direct failing input for the generator built on it
     # c02: positions REACHED by the engine's own make_move (games), boards and move sets judged along the way by the rules
-    "budget": {"quick": [("c01", 6000), ("c02", 2500)], "thorough": [("c01", 400000), ("c02", 200000)], "search": [("c01", 800000), ("c10x", 20000), ("c02", 400000)]},
+    "budget": {"quick": [("c01", 12000), ("c02", 2500)], "thorough": [("c01", 400000), ("c02", 200000)], "search": [("c01", 800000), ("c10x", 20000), ("c02", 400000)]},
     "rule": CHESS_RULE + "; per board three operations: the SET of generated moves (sorted, duplicates kept) vs model vs Spec.legalMoves, the ORDERED list vs model, the check test vs Spec.inCheck",
     "explanation": "C01's full theorem (GenerateMovesExact: Nodup + generated = Spec.legal + check test exact, for every Valid board) is stated in Props/C01.lean and is not closed yet; what is machine-checked so far is listed under 'theorems' (filter structure, double check, and the table exactness it relies on via Spec.LookupExact when Props/C10 is closed). Until the layers L2-L7 of DESIGN.md are closed this property is decided per position by the three-way correspondence: real generate_moves vs the Lean model vs the executable FIDE spec (Spec/Chess.lean) — a bounded, sampled decision, labelled as such.",
     "trusted_base": [KERNEL, AXIOMS, TIE, EXTRACT, "Spec/Chess.lean (FIDE rules on a mailbox board, ~230 lines) is the meaning of 'legal'"],
@@ -105,7 +105,7 @@ PROPS["C02"] = {
 }
 PROPS["C17"] = {
     "level": "other",
-    "budget": {"quick": [("c17", 5000)], "thorough": [("c17", 300000)], "search": [("c17", 600000), ("c10x", 20000)]},
+    "budget": {"quick": [("c17", 8000)], "thorough": [("c17", 300000)], "search": [("c17", 600000), ("c10x", 20000)]},
     "rule": CHESS_RULE + "; per board: generate_quiescence_moves (sorted) vs model vs {legal m | captures or promotes or gives check by the rules}, and the move list search_until_quiet itself selects (hook inside the search) vs model vs (in check ? all legal : tactical)",
     "explanation": "Machine-checked: the selection is exactly the filter of the generated moves by capture|promotion|check, all generated moves when in check (Props/C17.lean). The identification of the engine's is_check with 'gives check under the rules' (FullStatement) depends on C01/C02 and is decided per position by the correspondence until those close.",
     "trusted_base": [KERNEL, AXIOMS, TIE, "hook verif_quiescence_move_set records the list chosen inside search_until_quiet"],
@@ -175,7 +175,7 @@ PROPS["C07"] = {
 PROPS["C08"] = {
     "level": "proof",
     "prop_modules": ["Flounder.Props.C08", "Flounder.Props.C08Ranked", "Flounder.Props.ChessSearch", "Flounder.Props.ChessSearchExample", "Flounder.Props.QSpecChess"],
-    "budget": {"quick": [("c08", 25)], "thorough": [("c08", 500)], "search": [("c08", 1000)]},
+    "budget": {"quick": [("c08", 80)], "thorough": [("c08", 500)], "search": [("c08", 1000)]},
     "rule": "generated positions containing a mate in one (play-outs + heavy-piece small positions, filtered): fresh searcher at depths 1..4, the answer judged by the executable rules (must mate); positions with both mate-allowing and safe moves at depths 2..3 (answer must be safe), incl. positions with a single safe move",
     "trusted_base": SEARCH_TB + [HASHINJ],
     "assumptions": [HASHINJ, "EvalBound (C14) for the positions searched", "no deeper record reused for the depth-2/3 half (as C05); the reference values exist on every good board (chess_avoidable_mate_avoided_total needs no finiteness hypothesis)"],
